@@ -329,6 +329,7 @@ func runC15(t *testing.T, spec RunSpec) *RunResult {
 			}
 			acts = append(acts, netsim.Action{K: fmt.Sprintf("op:%d", oi), C: op.Kind})
 			synctest.Wait()
+			prng.Heartbeat.Add(1)
 			switch op.Kind {
 			case "idle":
 				time.Sleep(time.Duration(op.IdleMs)*time.Millisecond + 29*time.Microsecond)
